@@ -1,4 +1,5 @@
 import ShootVerif.Proofs.Fs
+import ShootVerif.Proofs.Recog
 import ShootVerif.Gen.Facts
 /-!
 C17 — writes are confined, atomic and never delete hand-written files.
@@ -188,6 +189,24 @@ theorem C17_clean_only_generated (c : Config) :
 /-- per-type runs (`-type=A`, `-sep`) and runs without a matching go:generate line never remove anything -/
 theorem C17_clean_inactive (c : Config) (h : (c.cleanActive && !c.outs.isEmpty) = false) : c.clean = [] := by
   simp [Config.clean, Config.cleanNames, h]
+
+/-! ### the recognisers Clean relies on, against declarative specifications (tied to filepath.Match / regexp by the
+in-process differential of tools/props/c17.py through the verif hook `shoot.VerifClean`) -/
+
+/-- the name filter is `*.shoot<cmd>*.go`: exactly the names `a ++ ".shoot<cmd>" ++ b ++ ".go"` -/
+theorem C17_glob_spec (cmd : Cmd) (name : String) :
+    globMatch cmd name = true ↔ ∃ a b, name.toList = a ++ (".shoot" ++ cmd.str).toList ++ b ++ dotGo :=
+  globMatch_iff cmd name
+
+/-- "generated by this sub-command": the first line is `// Code generated by "shoot <cmd> ` … `DO NOT EDIT` + one more character -/
+theorem C17_genline_spec (cmd : Cmd) (l : String) :
+    isGenLine cmd l = true ↔ ∃ y c z, l.toList = genPrefix cmd ++ y ++ dne ++ c :: z :=
+  isGenLine_iff cmd l
+
+/-- "all-in-one": `// Code generated by` … `-type=*` … `DO NOT EDIT` + one more character -/
+theorem C17_aioline_spec (l : String) :
+    isAIOLine l = true ↔ ∃ x y c z, l.toList = cgb ++ x ++ tyStar ++ y ++ dne ++ c :: z :=
+  isAIOLine_iff l
 
 /-! ### second tie: the op alphabet is complete -/
 
